@@ -27,7 +27,8 @@ type Case struct {
 	Bodies []string // text of each function body with CALL standing for the tail call
 	Calls  []string // how the tail call itself is written: plain | thread | macro
 	Uses   []string
-	Long   bool // also run 10^6 iterations in a child process under a small maximum stack
+	Thunks []bool // function i takes no parameter; the counter lives in an atom
+	Long   bool   // also run 10^6 iterations in a child process under a small maximum stack
 }
 
 type ctxGen struct {
@@ -89,6 +90,7 @@ func genCase(t *rapid.T) Case {
 		call := []string{"plain", "plain", "plain", "thread", "macro", "macro-list", "thread-fn"}[g.pick("callstyle", 7)]
 		g.uses["call:"+call] = true
 		c.Calls = append(c.Calls, call)
+		c.Thunks = append(c.Thunks, g.pick("thunk", 4) == 0)
 	}
 	for u := range g.uses {
 		c.Uses = append(c.Uses, u)
@@ -100,22 +102,40 @@ func genCase(t *rapid.T) Case {
 func program(c Case) string {
 	var sb strings.Builder
 	k := len(c.Bodies)
+	thunk := func(i int) bool { return i < len(c.Thunks) && c.Thunks[i] }
+	sb.WriteString("(def ctr (atom 0))\n")
 	for i, b := range c.Bodies {
-		next := fmt.Sprintf("f%d", (i+1)%k)
+		j := (i + 1) % k
+		next := fmt.Sprintf("f%d", j)
+		arg := "(- n 1)"
 		var callText string
-		switch c.Calls[i] {
-		case "thread":
+		switch {
+		case thunk(j):
+			// the callee takes no argument: the counter is passed through the atom
+			switch c.Calls[i] {
+			case "macro", "macro-list":
+				callText = "(hand-over " + next + ")"
+			default:
+				callText = "(" + next + ")"
+			}
+			callText = "(do (reset! ctr (- n 1)) " + callText + ")"
+		case c.Calls[i] == "thread":
 			callText = "(-> n (- 1) " + next + ")"
-		case "thread-fn":
+		case c.Calls[i] == "thread-fn":
 			callText = "(-> n dec (" + next + "))"
-		case "macro":
-			callText = "(hand-over " + next + " (- n 1))"
-		case "macro-list":
-			callText = "(hand-over-list " + next + " (- n 1))"
+		case c.Calls[i] == "macro":
+			callText = "(hand-over " + next + " " + arg + ")"
+		case c.Calls[i] == "macro-list":
+			callText = "(hand-over-list " + next + " " + arg + ")"
 		default:
-			callText = "(" + next + " (- n 1))"
+			callText = "(" + next + " " + arg + ")"
 		}
-		sb.WriteString(fmt.Sprintf("(def f%d (fn (n) (if (< n 1) (depth!) %s)))\n", i, strings.Replace(b, "HOLE", callText, 1)))
+		body := fmt.Sprintf("(if (< n 1) (depth!) %s)", strings.Replace(b, "HOLE", callText, 1))
+		if thunk(i) {
+			sb.WriteString(fmt.Sprintf("(def f%d (fn () (let (n @ctr) %s)))\n", i, body))
+		} else {
+			sb.WriteString(fmt.Sprintf("(def f%d (fn (n) %s))\n", i, body))
+		}
 	}
 	return sb.String()
 }
@@ -132,10 +152,14 @@ func newEnv() types.EnvType {
 	return e
 }
 
-func depthAt(e types.EnvType, n int) (int, error) {
+func depthAt(e types.EnvType, thunk0 bool, n int) (int, error) {
 	ctx, cancel := context.WithTimeout(context.Background(), 120*time.Second)
 	defer cancel()
-	r := box.ReadEval(ctx, fmt.Sprintf("(f0 %d)", n), e)
+	src := fmt.Sprintf("(f0 %d)", n)
+	if thunk0 {
+		src = fmt.Sprintf("(do (reset! ctr %d) (f0))", n)
+	}
+	r := box.ReadEval(ctx, src, e)
 	if r.Panicked {
 		return 0, fmt.Errorf("panic: %v", r.PanicVal)
 	}
@@ -162,7 +186,7 @@ func check(c Case) pbt.Verdict {
 	}
 	var depths []int
 	for _, n := range []int{1, 2, 10, 11, 150} {
-		d, err := depthAt(e, n)
+		d, err := depthAt(e, len(c.Thunks) > 0 && c.Thunks[0], n)
 		if err != nil {
 			return pbt.Failf("loop-fails", "(f0 %d) failed: %v\n%s", n, err, prog)
 		}
@@ -237,7 +261,7 @@ func TestChildLong(t *testing.T) {
 	if r := box.ReadEval(context.Background(), "(do "+program(c)+")", e); r.Err != nil {
 		t.Fatal(r.Err)
 	}
-	d, err := depthAt(e, 1000000)
+	d, err := depthAt(e, len(c.Thunks) > 0 && c.Thunks[0], 1000000)
 	if err != nil {
 		t.Fatal(err)
 	}
